@@ -11,11 +11,11 @@ with the runtime's own normalizeData / readData (sliced out of cache.ts / read.t
 the generated artifacts), and used as the oracle "no read reports missing data" on generated
 conforming responses.
 
-The full statement is false: a defaulted client-field variable makes the reader look up a key the
-query never fetched (confirmed with the real compiler + the real runtime, corpus/C10/witnesses.txt;
-open finding).  An object argument holding a variable (F12b) did the same until af3b32d; the model
-follows the repaired code and keeps the old functions for the witness.  Inside the envelope
-`selsSafe` (used variables are declared, no default is relied on) the reads are exactly the merged keys.
+Two defects made the reader look up keys the query never fetched (both confirmed with the real
+compiler + the real runtime, corpus/C10/witnesses.txt) and were repaired: an object argument holding a
+variable (F12b, af3b32d) and a defaulted client-field variable (901ffd9).  The model follows the
+repaired code and keeps the old functions for the two `C10_fixed_…` facts.  For every program that
+validation accepts (`progDistinct`, `selsSafe`) the reads are exactly the merged keys.
 -/
 import IsoVerif.Lemmas.OpsCover
 import IsoVerif.Model.Core.Runtime
@@ -37,32 +37,45 @@ theorem C10_fixed_object_argument :
         x ∈ mergeKeys progF12b 5 (identityCtx [(9, none)]) selsF12b) :=
   ⟨f12b_not_covered_before_repair, f12b_covered⟩
 
-/-- a defaulted variable: the compiler writes the default into the query, the runtime reads `null` -/
-theorem C10_witness_variable_default : ¬ C10_statement := fun h =>
-  default_not_covered (h progDefault 5 [] selsDefault)
+/-- the full statement for the CURRENT compiler, over every program of the model: it fails only for
+programs that validation rejects (here: a client field that declares one variable name twice) -/
+theorem C10_witness_duplicate_variable_names : ¬ C10_statement := fun h =>
+  dup_not_covered (h progDup 5 [] selsDup)
 
-/-- `merge_covers`: inside the envelope (every variable an argument uses, at any depth, is declared —
-what validation guarantees; every variable of a called client field is passed or has no default)
-every key that is read is a key of the merged selection map — for every program, nesting depth and
-chain of client fields -/
-theorem C10_merge_covers_partial (prog : Prog) (fuel : Nat) (vars : List (Nat × Option V)) (sels : List S)
+/-- a defaulted variable before 901ffd9: the compiler writes the default into the query, the reader
+was given nothing and read `null`; the reader's Resolver node now carries the default -/
+theorem C10_fixed_variable_default :
+    (¬ ∀ x ∈ readKeysOld progDefault 5 (identityCtx []) selsDefault,
+        x ∈ mergeKeys progDefault 5 (identityCtx []) selsDefault) ∧
+    (∀ x ∈ readKeys progDefault 5 (identityCtx []) selsDefault,
+        x ∈ mergeKeys progDefault 5 (identityCtx []) selsDefault) :=
+  ⟨default_not_covered_before_repair, default_covered⟩
+
+/-- `merge_covers`: for every program whose client fields declare distinct variable names, whose
+defaults are constants and whose arguments only use declared variables (at any depth) — i.e. what
+validation accepts — every key that is read is a key of the merged selection map, for every nesting
+depth and chain of client fields -/
+theorem C10_merge_covers_partial (prog : Prog) (hd : progDistinct prog = true) (fuel : Nat)
+    (vars : List (Nat × Option V)) (sels : List S)
     (hsafe : selsSafe prog fuel (vars.map (·.1)) sels = true) :
     ∀ x ∈ readKeys prog fuel (identityCtx vars) sels, x ∈ mergeKeys prog fuel (identityCtx vars) sels :=
-  merge_covers prog fuel vars sels hsafe
+  merge_covers prog hd fuel vars sels hsafe
 
-/-- … and nothing else is fetched for them: inside the envelope the two lists are equal -/
-theorem C10_read_eq_merge_partial (prog : Prog) (fuel : Nat) (vars : List (Nat × Option V)) (sels : List S)
+/-- … and nothing else is fetched for them: the two lists are equal -/
+theorem C10_read_eq_merge_partial (prog : Prog) (hd : progDistinct prog = true) (fuel : Nat)
+    (vars : List (Nat × Option V)) (sels : List S)
     (hsafe : selsSafe prog fuel (vars.map (·.1)) sels = true) :
     readKeys prog fuel (identityCtx vars) sels = mergeKeys prog fuel (identityCtx vars) sels :=
-  read_eq_merge_entry prog fuel vars sels hsafe
+  read_eq_merge_entry prog hd fuel vars sels hsafe
 
-example : selsSafe progOk 8 [9] selsOk = true := by decide
+example : progDistinct progOk = true ∧ selsSafe progOk 8 [9] selsOk = true := by decide
 
-/-- the default witness is outside the envelope, the F12b program is inside it now -/
+/-- the former witnesses are inside the envelope now; the remaining one is outside it -/
 theorem C10_witnesses_envelope :
-    selsSafe progDefault 5 (([] : List (Nat × Option V)).map (·.1)) selsDefault = false ∧
-    selsSafe progF12b 5 ([(9, (none : Option V))].map (·.1)) selsF12b = true :=
-  ⟨default_not_safe, f12b_safe⟩
+    selsSafe progDefault 5 (([] : List (Nat × Option V)).map (·.1)) selsDefault = true ∧
+    selsSafe progF12b 5 ([(9, (none : Option V))].map (·.1)) selsF12b = true ∧
+    progDistinct progDup = false :=
+  ⟨default_safe, f12b_safe, dup_not_distinct⟩
 
 /-! runtime side: the store keys of F12b (before the repair) as cache.ts computes them (`getParentRecordKey`) -/
 section
